@@ -549,4 +549,167 @@ theorem readPoints_flatten (ps : List SyncPoint) (extra : Bytes)
     rw [readN_append _ h2]
     simp only [hrec, hn]
 
+
+/-! ### every `case` keeps the type byte and the version it was given -/
+
+theorem parsePreCommitments_type {O : Oracle} {msg m : Msg} {data : Bytes} (h : parsePreCommitments O msg data = .ok m) :
+    m.type = msg.type ∧ m.version = msg.version := by
+  unfold parsePreCommitments at h
+  repeat' (first | split at h | dsimp only at h)
+  all_goals (try (simp at h))
+  all_goals (try (subst h; simp_all))
+
+theorem parseGraph_type {O : Oracle} {msg m : Msg} {data : Bytes} (h : parseGraph msg data = .ok m) :
+    m.type = msg.type ∧ m.version = msg.version := by
+  unfold parseGraph at h
+  repeat' (first | split at h | dsimp only at h)
+  all_goals (try (simp at h))
+  all_goals (try (subst h; simp_all))
+
+theorem parsePing_type {O : Oracle} {msg m : Msg} {data : Bytes} (h : parsePing msg data = .ok m) :
+    m.type = msg.type ∧ m.version = msg.version := by
+  unfold parsePing at h
+  repeat' (first | split at h | dsimp only at h)
+  all_goals (try (simp at h))
+  all_goals (try (subst h; simp_all))
+
+theorem parseAuthentication_type {O : Oracle} {msg m : Msg} {data : Bytes} (h : parseAuthentication msg data = .ok m) :
+    m.type = msg.type ∧ m.version = msg.version := by
+  unfold parseAuthentication at h
+  repeat' (first | split at h | dsimp only at h)
+  all_goals (try (simp at h))
+  all_goals (try (subst h; simp_all))
+
+theorem parseSnapshotConfirm_type {O : Oracle} {msg m : Msg} {data : Bytes} (h : parseSnapshotConfirm msg data = .ok m) :
+    m.type = msg.type ∧ m.version = msg.version := by
+  unfold parseSnapshotConfirm at h
+  repeat' (first | split at h | dsimp only at h)
+  all_goals (try (simp at h))
+  all_goals (try (subst h; simp_all))
+
+theorem parseTransaction_type {O : Oracle} {msg m : Msg} {data : Bytes} (h : parseTransaction O msg data = .ok m) :
+    m.type = msg.type ∧ m.version = msg.version := by
+  unfold parseTransaction at h
+  repeat' (first | split at h | dsimp only at h)
+  all_goals (try (simp at h))
+  all_goals (try (subst h; simp_all))
+
+theorem parseBundle_type {O : Oracle} {msg m : Msg} {data : Bytes} (h : parseBundle O msg data = .ok m) :
+    m.type = msg.type ∧ m.version = msg.version := by
+  unfold parseBundle at h
+  repeat' (first | split at h | dsimp only at h)
+  all_goals (try (simp at h))
+  all_goals (try (subst h; simp_all))
+
+theorem parseTransactionRequest_type {O : Oracle} {msg m : Msg} {data : Bytes} (h : parseTransactionRequest msg data = .ok m) :
+    m.type = msg.type ∧ m.version = msg.version := by
+  unfold parseTransactionRequest at h
+  repeat' (first | split at h | dsimp only at h)
+  all_goals (try (simp at h))
+  all_goals (try (subst h; simp_all))
+
+theorem parseAnnouncement_type {O : Oracle} {msg m : Msg} {data : Bytes} (h : parseAnnouncement O msg data = .ok m) :
+    m.type = msg.type ∧ m.version = msg.version := by
+  unfold parseAnnouncement at h
+  repeat' (first | split at h | dsimp only at h)
+  all_goals (try (simp at h))
+  all_goals (try (subst h; simp_all))
+
+theorem parseCommitment_type {O : Oracle} {msg m : Msg} {data : Bytes} (h : parseCommitment O msg data = .ok m) :
+    m.type = msg.type ∧ m.version = msg.version := by
+  unfold parseCommitment at h
+  repeat' (first | split at h | dsimp only at h)
+  all_goals (try (simp at h))
+  all_goals (try (subst h; simp_all))
+
+theorem parseFullChallenge_type {O : Oracle} {msg m : Msg} {data : Bytes} (h : parseFullChallenge O msg data = .ok m) :
+    m.type = msg.type ∧ m.version = msg.version := by
+  unfold parseFullChallenge at h
+  repeat' (first | split at h | dsimp only at h)
+  all_goals (try (simp at h))
+  all_goals (try (subst h; simp_all))
+
+theorem parseTransactionChallenge_type {O : Oracle} {msg m : Msg} {data : Bytes} (h : parseTransactionChallenge O msg data = .ok m) :
+    m.type = msg.type ∧ m.version = msg.version := by
+  unfold parseTransactionChallenge at h
+  repeat' (first | split at h | dsimp only at h)
+  all_goals (try (simp at h))
+  all_goals (try (subst h; simp_all))
+
+theorem parseResponse_type {O : Oracle} {msg m : Msg} {data : Bytes} (h : parseResponse msg data = .ok m) :
+    m.type = msg.type ∧ m.version = msg.version := by
+  unfold parseResponse at h
+  repeat' (first | split at h | dsimp only at h)
+  all_goals (try (simp at h))
+  all_goals (try (subst h; simp_all))
+
+theorem parseFinalization_type {O : Oracle} {msg m : Msg} {data : Bytes} (h : parseFinalization O msg data = .ok m) :
+    m.type = msg.type ∧ m.version = msg.version := by
+  unfold parseFinalization at h
+  repeat' (first | split at h | dsimp only at h)
+  all_goals (try (simp at h))
+  all_goals (try (subst h; simp_all))
+
+theorem parseRelay_type {O : Oracle} {msg m : Msg} {data : Bytes} (h : parseRelay msg data = .ok m) :
+    m.type = msg.type ∧ m.version = msg.version := by
+  unfold parseRelay at h
+  repeat' (first | split at h | dsimp only at h)
+  all_goals (try (simp at h))
+  all_goals (try (subst h; simp_all))
+
+theorem parseConsumers_type {O : Oracle} {msg m : Msg} {data : Bytes} (h : parseConsumers msg data = .ok m) :
+    m.type = msg.type ∧ m.version = msg.version := by
+  unfold parseConsumers at h
+  repeat' (first | split at h | dsimp only at h)
+  all_goals (try (simp at h))
+  all_goals (try (subst h; simp_all))
+
+/-! ### points that must be valid curve points -/
+
+theorem parseAnnouncement_ok {O : Oracle} {msg m : Msg} {data : Bytes} (h : parseAnnouncement O msg data = .ok m) :
+    O.checkKey m.commitment = true := by
+  unfold parseAnnouncement at h
+  repeat' (first | split at h | dsimp only at h)
+  all_goals (try (simp at h))
+  all_goals (subst h; simp_all)
+
+theorem parseCommitment_ok {O : Oracle} {msg m : Msg} {data : Bytes} (h : parseCommitment O msg data = .ok m) :
+    O.checkKey m.commitment = true := by
+  unfold parseCommitment at h
+  repeat' (first | split at h | dsimp only at h)
+  all_goals (try (simp at h))
+  all_goals (subst h; simp_all)
+
+theorem parseFullChallenge_ok {O : Oracle} {msg m : Msg} {data : Bytes} (h : parseFullChallenge O msg data = .ok m) :
+    O.checkKey m.commitment = true ∧ O.checkKey m.challenge = true := by
+  unfold parseFullChallenge at h
+  repeat' (first | split at h | dsimp only at h)
+  all_goals (try (simp at h))
+  all_goals (subst h; simp_all)
+
+theorem preCommitLoop_ok (O : Oracle) (data : Bytes) :
+    ∀ (n i : Nat) (keys : List Bytes), preCommitLoop O data n i = .ok keys →
+      keys.length = n ∧ ∀ k ∈ keys, O.checkKey k = true := by
+  intro n
+  induction n with
+  | zero => intro i keys h; simp [preCommitLoop] at h; subst h; simp
+  | succ n ih =>
+    intro i keys h
+    unfold preCommitLoop at h
+    repeat' (first | split at h | dsimp only at h)
+    all_goals (try (simp at h))
+    next =>
+      obtain ⟨h1, h2⟩ := ih _ _ (by assumption)
+      subst h
+      simp_all
+
+theorem parsePreCommitments_ok {O : Oracle} {msg m : Msg} {data : Bytes}
+    (h : parsePreCommitments O msg data = .ok m) : ∀ k ∈ m.commitments, O.checkKey k = true := by
+  unfold parsePreCommitments at h
+  repeat' (first | split at h | dsimp only at h)
+  all_goals (try (simp at h))
+  next =>
+    subst h
+    exact (preCommitLoop_ok O data _ _ _ (by assumption)).2
+
 end Mixin.PeerMsg
